@@ -519,6 +519,22 @@ def _infectious(p):
     return {p.INFECTED}
 
 
+def _configured_T(d, q):
+    """the infectious period the experiment's parameters configure for instance q (own decorated name, else the shared name): taken from
+    the parameters handed to the run, not from what the process stored"""
+    try:
+        ps = d.parameters()
+    except Exception:
+        ps = {}
+    for cls_ in type(q).__mro__:
+        key = getattr(cls_, 'T_INFECTED', None) or (getattr(cls_, 'T', None) if cls_.__name__ == 'VarInfFixed' else None)
+        if key is None: continue
+        nm = q.instanceName()
+        if nm is not None and f"{key}@{nm}" in ps: return ps[f"{key}@{nm}"]
+        if key in ps: return ps[key]
+    return q._tInfected
+
+
 def oracle_diagram(d, ex, cur, t, p, name, e):
     """C07: partition; every compartment change is an arrow of the diagram; infection only through an edge to a neighbour that is
     infectious at that very moment; per-edge transmission rate; fixed recovery exactly T after infection"""
@@ -547,15 +563,15 @@ def oracle_diagram(d, ex, cur, t, p, name, e):
                     if arrow[0] == 'S': st['since'][(key, n)] = t
                     if arrow[0] == 'I':
                         t0 = st['since'].get((key, n), 0.0)
-                        if t != t0 + q._tInfected:
-                            out = out or f"{cls}: node {n} entered I at {t0} and left at {t}, configured time {q._tInfected}"
+                        if t != t0 + _configured_T(d, q):
+                            out = out or f"{cls}: node {n} entered I at {t0} and left at {t}, configured time {_configured_T(d, q)}"
                         st['since'].pop((key, n), None)
         if cls in ('SIR_FixedRecovery', 'SIS_FixedRecovery', 'VarInfFixed'):
             for n, c in now.items():
                 if c == q.INFECTED:
                     t0 = st['since'].get((key, n), 0.0)
-                    if t0 + q._tInfected < t and not cur.get('posted'):
-                        out = out or f"{cls}: node {n} entered I at {t0} and is still infected at {t}, configured time {q._tInfected}"
+                    if t0 + _configured_T(d, q) < t and not cur.get('posted'):
+                        out = out or f"{cls}: node {n} entered I at {t0} and is still infected at {t}, configured time {_configured_T(d, q)}"
         st['prev'][key] = now
         # transmission acts on every susceptible-infectious edge: rate of the infection event = p * number of such edges
         if d.__class__.__mro__[1].__name__ == 'StochasticDynamics' and cls not in ('SIR_VariableInfection', 'VarInfFixed', 'Opinion', 'Vaccinate', 'SEIR'):
